@@ -74,6 +74,32 @@ CLAIMED.update({
         note=("Bit-identity is judged within one process on model.parameters. Trusted: TLC, recorder wrappers."),
         technique="TLA+ spec + TLC exhaustive; code->spec trace validation; seeded re-execution",
         design_ref="4/C11, 3.3"),
+    "C13": dict(
+        engine="ModelLifecycle", category="model_checking",
+        text=("TLC checks ResultDependsOnlyOn, ModelUntouched, NothingLeftBehind, CallerInputsUntouched, PopAtMode and "
+              "SeededRepeatable of specs/ModelLifecycle.tla on every history of up to 5 (6) API calls (fit, estimate, three "
+              "personalization algorithms, simulate, save, load, RNG consumption; 2 data sets, 2 seeds); TLC-simulated "
+              "histories are replayed on real model objects: after every call the projected model state must be the "
+              "specification's (training data / latent values present, population variables at prior modes, parameter and "
+              "population hashes unchanged by queries, caller-owned table / settings / dict unchanged) and results carrying the "
+              "same term <<call, params, inputs, seed>> must be bit-identical across different histories."),
+        note=("A re-fit is modelled as built (continues from the latent values held in the state). Bounded histories; "
+              "tiny cohorts and few iterations. Trusted: TLC, the replay driver, hashing of result arrays."),
+        technique="TLA+ spec + TLC exhaustive; spec->code replay of call histories",
+        design_ref="4/C13, 3.4"),
+    "C14": dict(
+        engine="Ingest", category="model_checking",
+        text=("TLC checks OneRowPerIndividual, VisitsSorted, Aligned, CountsRight, PermutationInvariant (every row permutation) "
+              "and RejectsExactlyMalformed of specs/Ingest.tla on every table of <= 3 rows (ages incl. a pair equal after "
+              "rounding and NaN, values incl. NaN / inf, 1-2 features, 8 identifier typings, text columns); TLC enumerates "
+              "every table of <= 2 rows (3 thorough), each is built as a real DataFrame and ingested (Data.from_dataframe, "
+              "Dataset, to_pandas, re-ingestion), and TLC compares the recorded canonical form, exception class, tensor "
+              "padding / mask / counters and the untouched input with Canon(table) (IngestTrace.tla), checking that the records "
+              "cover the enumerated space; larger tables are sampled."),
+        note=("Visit layout only in this table (event / joint layouts are exercised through the model drivers). "
+              "Known finding: to_pandas sorts individuals by identifier."),
+        technique="TLA+ case table + TLC exhaustive; spec-enumerated cases run on the code; code->spec conformance",
+        design_ref="4/C14"),
     "C15": dict(
         engine="VarGraph", category="model_checking",
         text=("TLC checks RejectExactly, TopoOrder and ClosureExact of the transcribed builder (specs/VarGraph.tla) on all 2^20 "
@@ -100,6 +126,8 @@ CLAIMED.update({
 })
 
 ENGINES = {
+    "ModelLifecycle": dict(path="specs/ModelLifecycle.tla", kind="TLA+ state machine of API call histories on a model object"),
+    "Ingest": dict(path="specs/Ingest.tla", kind="TLA+ case table of table ingestion (+ IngestTrace.tla)"),
     "Sampler": dict(path="specs/Sampler.tla", kind="TLA+ state machine of one Metropolis-within-Gibbs sampler (+ SamplerCore.tla, SamplerTrace.tla)"),
     "Saem": dict(path="specs/Saem.tla", kind="TLA+ state machine of one MCMC-SAEM run (+ SaemTrace.tla, MC_Saem*.cfg)"),
     "VarGraph": dict(path="specs/VarGraph.tla", kind="TLA+ transcription of the dependency-graph builder (+ VarGraphTrace.tla)"),
